@@ -37,7 +37,7 @@ ASSUMPTIONS = [
 ]
 MUST_SEE = ["recreated_with_suffix_id", "shared_subtrees", "fresh_process_cases", "subforest_alive", "none_alive", "all_alive", "multi_origin", "hostile_strings", "index_sources", "yaml", "msgpck", "json"]
 CONFIG = {
-    "quick": {"shards": 16, "trees": 30, "fresh": 6, "watchdog_s": 600},
+    "quick": {"shards": 16, "trees": 60, "fresh": 6, "watchdog_s": 600},
     "thorough": {"shards": 32, "trees": 400, "fresh": 60, "watchdog_s": 3400},
 }
 
